@@ -25,6 +25,8 @@ type Ctx struct {
 	mach    map[string]*fsmx.Machine
 	siteIdx map[ssa.CallInstruction][]*ssa.Function
 	derives []string
+	c18info map[string]*payloadInfo
+	c18scope []*ssa.Function
 }
 
 type RuleFunc func(c *Ctx)
